@@ -268,6 +268,16 @@ def r4(ctx):
         built = [v for st, v in assignments_to(f.node, name) if isinstance(v, ast.Call) and dotted(v.func) == "cls"]
         ctx.ob("R4", "DOM", f, "return " + src(r.value), val and rew_ok and bool(built),
                f"candidate returned only after find_mz_offset(<it>) is not None={val}; rewound to logical 0={rew_ok}; built by cls(fh, nonce_offset=candidate)={bool(built)}", r)
+    # the search range bounds where the *encoded region* may start in the raw file; the PE check on the decoded stream
+    # is a different coordinate space and keeps find_mz_offset's own default range (a narrower one rejects valid stages)
+    for c in [c for c in fn_calls(f.node) if ctx.rs.resolve_call(f, c).fq == "pe.find_mz_offset"]:
+        extra = sorted({n.id for a in list(c.args[1:]) + [k.value for k in c.keywords] for n in ast.walk(a) if isinstance(n, ast.Name)})
+        from csverif.astutil import bind_args, param_defaults
+        callee = ctx.repo.func("pe.find_mz_offset").node
+        b, dfl = bind_args(c, callee), param_defaults(callee)
+        narrowed = [p for p in params(callee)[1:] if _c(b.get(p)) is None or (p == "maxrange" and _c(b.get(p)) < _c(dfl.get(p))) or (p != "maxrange" and _c(b.get(p)) != _c(dfl.get(p)))]
+        ctx.ob("R4", "AGREE", f, "find_mz_offset(<candidate>) with its default range", not narrowed,
+               "the candidate is validated over find_mz_offset's default range" if not narrowed else f"validation range overridden ({narrowed} from {extra}): a valid stage whose PE header lies beyond it is rejected", c)
     last = [r for r in cfg.raise_stmts() if raise_class(r) == "ValueError" and fv.enclosing(r, (ast.For, ast.While, ast.If, ast.Try)) is None]
     ctx.ob("R4", "EXIT", f, "fall-through raises ValueError", bool(last) and not cfg.falls_off_end(), "inputs without a valid candidate are rejected with ValueError")
     loops = [s for s in statements(f.node) if isinstance(s, ast.For) and "most_common" in src(s.iter)]
